@@ -27,15 +27,6 @@ func init() {
 // vpNative is set by the native test build (zz_verif_native_test.go).
 var vpNative func(scenario string, in map[string]string) (failed bool)
 
-const vpSeed = 7
-
-const (
-	vpID1 = "1111111111111111111111111111111111111111111111111111111111111111"
-	vpID2 = "2222222222222222222222222222222222222222222222222222222222222222"
-	vpPkA = "aaaaaaaaaaaaaaaaaaaaaaaaaaaaaaaaaaaaaaaaaaaaaaaaaaaaaaaaaaaaaaaa"
-	vpPkB = "bbbbbbbbbbbbbbbbbbbbbbbbbbbbbbbbbbbbbbbbbbbbbbbbbbbbbbbbbbbbbbbb"
-)
-
 // vpXX is the stand-in for xxHash32: Sum32 is an uninterpreted function of
 // (seed, bytes written).
 type vpXX struct {
